@@ -143,6 +143,62 @@ func (c *Ctx) divGuards(prefix string) {
 	}
 }
 
+// lockPgnoConfirmed: call sites of ltx.LockPgno whose argument is non-zero by an
+// invariant established elsewhere, each confirmed by reading. Any other site
+// must test its argument locally.
+var lockPgnoConfirmed = map[string]string{
+	"(*DB).CommitWAL":               "reached only when the WAL transaction has frames (empty txFrameOffsets returns first); frames are accepted by writeWALFrame only after writeWALHeader, which runs after the first database page taught the page size",
+	"(*DB).WriteSnapshotTo":         "follows Encoder.EncodeHeader of the same page size, which rejects 0 (observed: 'invalid page size: 0')",
+	"(*DB).importToLTX":             "follows Encoder.EncodeHeader of the header's page size, which rejects 0 (C16 validate/page-size-validated-before-use)",
+	"(*DB).initDatabaseFile":        "follows assert(db.pageSize > 0) on the page size read from the database header; an empty file returns before",
+	"(*DB).pageChecksum":            "called for page numbers 1..pageN of a database that has pages, i.e. after a page write or header taught the page size",
+	"(*DB).setDatabasePageChecksum": "called for a page that was just written, applied or read with the database's page size (non-zero at those callers)",
+	"(*JournalReader).ReadFrame":    "frameN is non-zero only after Next accepted a header, which returns EOF first when the page size is 0",
+}
+
+// lockPgnoGuards: ltx.LockPgno(pageSize) divides by its argument, so every
+// call in package litefs needs a non-zero argument on every path.
+func (c *Ctx) lockPgnoGuards(prefix string) {
+	rule := "K12 DivGuard (callee divides by its argument)"
+	why := "ltx.LockPgno(0) is an integer division by zero: a panic in a request handler, in recovery or on arbitrary bytes"
+	n := 0
+	for _, fn := range c.P.SrcFuncs() {
+		if !c.inScope(fn, []string{"litefs"}) || len(fn.Blocks) == 0 {
+			continue
+		}
+		for _, b := range fn.Blocks {
+			for _, in := range b.Instrs {
+				call, ok := in.(*ssa.Call)
+				if !ok || c.P.CalleeName(&call.Call) != "ltx.LockPgno" || len(call.Call.Args) != 1 {
+					continue
+				}
+				n++
+				y := call.Call.Args[0]
+				R := c.P.Render(y)
+				short := strings.TrimPrefix(c.P.FuncName(topFunc(fn)), "litefs.")
+				key := prefix + "/" + short + "/" + R
+				desc := "argument " + R + " of ltx.LockPgno in " + short + " is proven non-zero"
+				if structurallyNonZero(y) {
+					c.ok(key, rule, desc, 1)
+					continue
+				}
+				if ok, detail := c.divisorGuarded(fn, call, y, R, 1); !ok {
+					if r, exc := lockPgnoConfirmed[short]; exc {
+						c.ok(key, rule, desc+" - confirmed invariant (not derived): "+r, 1)
+					} else {
+						c.fail(key, rule, desc, why, detail, 1)
+					}
+				} else {
+					c.ok(key, rule, desc, 1)
+				}
+			}
+		}
+	}
+	if n < 8 {
+		c.fail(prefix+"/floor", rule, "at least 8 ltx.LockPgno call sites analysed", why, fmt.Sprintf("only %d found", n), n)
+	}
+}
+
 func stripConv(v ssa.Value) ssa.Value {
 	for {
 		switch x := v.(type) {
